@@ -1,14 +1,52 @@
 import MazeVerif.DriverOps.Util
+import MazeVerif.DriverOps.C01
+import MazeVerif.DriverOps.C02
+import MazeVerif.DriverOps.C03
+import MazeVerif.DriverOps.C04
+import MazeVerif.DriverOps.C05
+import MazeVerif.DriverOps.C06
+import MazeVerif.DriverOps.C07
+import MazeVerif.DriverOps.C08
+import MazeVerif.DriverOps.C09
+import MazeVerif.DriverOps.C10
+import MazeVerif.DriverOps.C11
+import MazeVerif.DriverOps.C12
+import MazeVerif.DriverOps.C13
+import MazeVerif.DriverOps.C14
+import MazeVerif.DriverOps.C15
 import MazeVerif.DriverOps.C16
+import MazeVerif.DriverOps.C17
+import MazeVerif.DriverOps.C18
+import MazeVerif.DriverOps.C19
+import MazeVerif.DriverOps.C20
 /-! Line protocol driver: one JSON request per line on stdin, one JSON reply per line on stdout.
-    Requests carry `"op": "<Cxx>.<name>"`; the prefix selects the per-property handler.
+    Requests carry `"op": "<Cxx>.<name>"`; the prefix selects the per-property handler in `MazeVerif/DriverOps/<Cxx>.lean`.
     Imports only Mathlib-free modules so it links as an executable. -/
 open Lean MZ.Drv
 
 def dispatch (j : Json) : R Json := do
   let op ← getStr j "op"
   match (op.splitOn ".").head! with
+  | "C01" => C01.handle op j
+  | "C02" => C02.handle op j
+  | "C03" => C03.handle op j
+  | "C04" => C04.handle op j
+  | "C05" => C05.handle op j
+  | "C06" => C06.handle op j
+  | "C07" => C07.handle op j
+  | "C08" => C08.handle op j
+  | "C09" => C09.handle op j
+  | "C10" => C10.handle op j
+  | "C11" => C11.handle op j
+  | "C12" => C12.handle op j
+  | "C13" => C13.handle op j
+  | "C14" => C14.handle op j
+  | "C15" => C15.handle op j
   | "C16" => C16.handle op j
+  | "C17" => C17.handle op j
+  | "C18" => C18.handle op j
+  | "C19" => C19.handle op j
+  | "C20" => C20.handle op j
   | "ping" => pure (obj [("pong", true)])
   | p => throw s!"no handler for prefix {p}"
 
